@@ -557,7 +557,11 @@ class SVG:
 
                 group.append(new_el)
 
-                if _try_remove_group(group, push_opacity=False):
+                # a translucent use is a translucent group: it can only be dissolved once it is
+                # known how many pieces its content becomes (a stroked and filled shape is two)
+                if 0.0 < _opacity(group) < 1.0:
+                    swaps.append((use_el, group))
+                elif _try_remove_group(group, push_opacity=False):
                     _inherit_attrib(group.attrib, new_el)
                     swaps.append((use_el, new_el))
                 else:
